@@ -420,7 +420,7 @@ impl Builder {
                 let local = self.udp_local_address.unwrap_or("0.0.0.0:0".parse()?);
 
                 let stream = tokio::net::UdpSocket::bind(local).await?;
-                stream.connect(self.remote).await.unwrap();
+                stream.connect(self.remote).await?;
 
                 let mut isi = self.isi();
                 if self.udp_local_address.is_none() {
